@@ -17,14 +17,14 @@
      input whose CENTRE PART is well formed (positive widths whose sum is the
      distance between the centre edges).  That hypothesis is discharged for
      the three configurations without a sea surface (centre at a node, centre at
-     a cell centre, user vector) by center_*; with a sea surface it is NOT
+     a cell centre, user vector) by center_at_... ; with a sea surface it is NOT
      proved (it needs brentq's answer to be positive; the adjusted widths are
      tdmin*alph^k) -- hence the suffix _partial on the theorems that depend on
      it.  Floating-point accumulation (cumsum, **, np.sum), np.isclose and
      brentq are not proved.
    * error behaviour: full (oaw_none_means_error, oaw_error_means_none,
      construct_mesh_fails_loudly).
-   * routing: full for the documented forms (route_*). *)
+   * routing: full for the documented forms (route_ lemmas). *)
 From Coq Require Import Reals ZArith Bool List Arith QArith Sorted.
 From V Require Import Base.FieldSig Base.ExecQ Model.Gridding Model.GriddingExec Proofs.Gridding.
 Import ListNotations.
